@@ -73,7 +73,7 @@ fn zip_body<const NA: usize, const NB: usize>(side: u8) {
 			core::mem::forget(m);
 		},
 	}
-	witness!(side != 2 || (!fail && n == NA + NB - 1), "one shared key (or a one-sided call)");
+	witness!(side != 2 || NA == 0 || NB == 0 || (!fail && n == NA + NB - 1), "one shared key (or a one-sided call / an empty side)");
 	witness!(!fail && (side != 2 || n == NA + NB), "disjoint keys / one-sided success");
 	witness!(fail, "a failing combiner call");
 	core::mem::forget(a); core::mem::forget(b);
@@ -85,6 +85,7 @@ fn node2(key: u8, name: Option<Nm>, doc: Option<u8>) -> Node { Node { info: Info
 //# {"id":"c09_zip_ab_2_2","props":["C09","C04"],"tier":"quick","cap":900,"bound":"zip_map_combination::<u8,u8,(u8,u8)>: both sides, 2 + 2 keys in 1..=4, combiner ok/failing; unwind 6","fns":["quill::action::diff_mappings::diff_and_merge::{zip_map_combination,zip_map}"]}
 //# {"id":"c09_zip_one_side","props":["C09","C04"],"tier":"quick","cap":600,"bound":"zip_map_combination with only side A or only side B, 2 keys; unwind 5","fns":["zip_map_combination","map_combine_one_side"]}
 //# {"id":"c09_zip_ab_2_1","props":["C09","C04"],"tier":"quick","cap":900,"bound":"both sides, 2 + 1 keys; unwind 5","fns":["zip_map_combination","zip_map"]}
+//# {"id":"c09_zip_empty_side","props":["C09","C04"],"tier":"quick","cap":900,"bound":"both sides given, one of them an EMPTY map (0 + 2 keys and 2 + 0 keys), combiner ok/failing; unwind 5","fns":["zip_map_combination","zip_map"]}
 //# {"id":"c09_merge_names","props":["C09"],"tier":"quick","cap":600,"bound":"merge_names over Names<2, 1-byte name>: every cell content on each side, A-only / B-only / both; no loops beyond array maps (unwind 5)","fns":["quill::action::merge::merge_names"]}
 //# {"id":"c09_merge_equal_javadoc","props":["C09"],"tier":"quick","cap":600,"bound":"merge_equal::<u8>, merge_javadoc / merge_javadoc_ab with Option<u8> comments: every combination; unwind 3","fns":["quill::action::merge::{merge_equal,merge_javadoc,merge_javadoc_ab}"]}
 //# {"id":"c04_gen_diff","props":["C04"],"tier":"quick","cap":600,"bound":"gen_diff_names / gen_diff_javadoc over one-byte names and comments: every cell content, A-only / B-only / both; then apply_diff_option(gen_diff_javadoc(a,b), a) == b; unwind 4","fns":["quill::action::diff_mappings::{gen_diff_names,gen_diff_javadoc}","quill::apply_diff_option","Names::change_name"]}
@@ -97,6 +98,8 @@ proofs! {
 	fn c09_zip_one_side() { let side = if sym::bool() { 0 } else { 1 }; zip_body::<2, 2>(side); }
 	#[cfg_attr(kani, kani::unwind(5))]
 	fn c09_zip_ab_2_1() { zip_body::<2, 1>(2); }
+	#[cfg_attr(kani, kani::unwind(5))]
+	fn c09_zip_empty_side() { if sym::bool() { zip_body::<0, 2>(2); } else { zip_body::<2, 0>(2); } }
 
 	#[cfg_attr(kani, kani::unwind(5))]
 	fn c09_merge_names() {
